@@ -269,6 +269,21 @@ pub fn with_id(o: &OrderType<()>, new_id: OrderId) -> OrderType<()> {
     n
 }
 
+/// Same order with another timestamp (an order resubmitted after a cancel).
+pub fn with_timestamp(o: &OrderType<()>, ts: u64) -> OrderType<()> {
+    let mut n = *o;
+    match &mut n {
+        OrderType::Standard { timestamp, .. }
+        | OrderType::PostOnly { timestamp, .. }
+        | OrderType::TrailingStop { timestamp, .. }
+        | OrderType::PeggedOrder { timestamp, .. }
+        | OrderType::MarketToLimit { timestamp, .. }
+        | OrderType::IcebergOrder { timestamp, .. }
+        | OrderType::ReserveOrder { timestamp, .. } => *timestamp = ts,
+    }
+    n
+}
+
 /// Identity of an id as the harness sees it: format variant + the 128 bits. Deliberately not
 /// the library's own `PartialEq` / `Hash` for `OrderId` (a change to those must not change what
 /// the generators and the model consider "the same id").
